@@ -127,6 +127,28 @@ def r3(ctx):
         else:
             yield PASS("C15-R3", "into_request_bytes/%s/identity" % ty, "Ok(%s)" % ("Bytes::new()" if ty == "()" else "Bytes::from(self)" if "Vec" in ty else "self"), [loc(b.j["span"])])
     ctx.count(n)
+    # every *other* body conversion the crate offers (a new `impl IntoRequestBytes for VecDeque<u8>` / `Chain<..>` / ..)
+    # is a second way for a body to come in: it must hand over the whole value by whole-value conversions only. A view of
+    # a part (`Buf::chunk()` = the first contiguous piece, `as_slices().0`, an index, `take`) hashes a prefix.
+    WHOLE = r"bytes::Bytes::(new|from|from_owner|copy_from_slice|from_static)$|convert::(From::from|Into::into)$|BytesMut::freeze$|Buf::copy_to_bytes$|Buf::remaining$|Vec::<T, A>::(into_boxed_slice|as_slice|from)$|String::(into_bytes|into_boxed_str)$|Cursor::<T>::into_inner$|VecDeque::<T, A>::(make_contiguous|into)$|Deref::deref$|AsRef::as_ref$|Borrow::borrow$|slice::<impl \[T\]>::to_vec$|Box::<T>::new$|pin::Pin::<\w+>::new\w*$|Box::<T, A>::pin$"
+    for b in ctx.facts.find_bodies(r" as signature::IntoRequestBytes>::into_request_bytes::\{closure#0\}$"):
+        ty = re.match(r"^<(.*) as signature::IntoRequestBytes>", b.path).group(1)
+        if ty in want:
+            continue
+        ctx.functions.add(b.path)
+        ctx.count()
+        odd = sorted({t["callee"] for _, t in b.calls() if not re.search(WHOLE, t["callee"]) and not re.search(r"^core::future::|^std::future::|ops::Try::branch$|FromResidual::from_residual$|^std::task::|get_context$", t["callee"])})
+        # helpers of the crate are followed one level
+        for _, t in list(b.calls()):
+            if t.get("resolved_local") and t.get("resolved") and not re.search(WHOLE, t["callee"]):
+                hb = ctx.facts.find_bodies("^" + re.escape(t["resolved"]) + "$", include_absorbed=True)
+                for h in hb:
+                    odd += [c_ for c_ in sorted({t2["callee"] for _, t2 in h.calls()}) if not re.search(WHOLE, c_)]
+                    odd = [c_ for c_ in odd if c_ != t["callee"]]
+        if odd:
+            yield VIOL("C15-R3", "into_request_bytes/%s/whole-value" % ty, "the body conversion for `%s` goes through %s: not (only) whole-value conversions - part of the body may be dropped before it is hashed and handed back" % (ty, [c_.split("::")[-1] for c_ in odd][:4]), where=loc(b.j["span"]))
+        else:
+            yield PASS("C15-R3", "into_request_bytes/%s/whole-value" % ty, "whole-value conversions only", [loc(b.j["span"])])
 
 
 @M.rule("C15-R4", "principal and session data returned are the provider's")
